@@ -251,6 +251,10 @@ func gossipCheck(run *core.Run) {
 	if err != nil || len(behaviours) < 20 {
 		core.Fatal("GossipSession generation: %v (%d behaviours)", err, len(behaviours))
 	}
+	if run.Thorough() {
+		// every exchange three times (other neighbours in the child, other random hashes)
+		behaviours = append(append(append([]gossipBehaviour{}, behaviours...), behaviours...), behaviours...)
+	}
 	const parts = 6
 	dir, err := os.MkdirTemp(core.Scratch(), "gossip-")
 	if err != nil {
@@ -259,7 +263,7 @@ func gossipCheck(run *core.Run) {
 	defer os.RemoveAll(dir)
 	args := make([]gossipArg, parts)
 	for i, b := range behaviours {
-		k := (i + int(run.Seed)) % parts
+		k := (i + int(run.Seed) + i/29) % parts
 		args[k].Behaviours = append(args[k].Behaviours, b)
 	}
 	outs := make([]syncSessResult, parts)
